@@ -252,6 +252,17 @@ func encoders16(f *ssa.Function) []be16Site {
 		})
 	}
 	var out []be16Site
+	// the library's codec: binary.BigEndian.PutUint16 / binary.LittleEndian.PutUint16
+	for _, g := range WithAnon(f) {
+		for _, c := range Calls(g, false, "PutUint16") {
+			switch CalleeOf(c).Recv {
+			case "bigEndian":
+				out = append(out, be16Site{CallPos(c), "BE"})
+			case "littleEndian":
+				out = append(out, be16Site{CallPos(c), "LE"})
+			}
+		}
+	}
 	for _, hi := range stores {
 		if hi.shift != 8 {
 			continue
@@ -288,6 +299,29 @@ func decoders16(f *ssa.Function) (sites []be16Site, vals []ssa.Value) {
 		return ia.Index, true
 	}
 	for _, g := range WithAnon(f) {
+		for _, c := range Calls(g, false, "Uint16") {
+			cv, isV := c.(*ssa.Call)
+			if !isV {
+				continue
+			}
+			var val ssa.Value = cv
+			// the decoded length is usually converted: int(binary.BigEndian.Uint16(...))
+			if cv.Referrers() != nil {
+				for _, ref := range *cv.Referrers() {
+					if cvt, ok := ref.(*ssa.Convert); ok {
+						val = cvt
+					}
+				}
+			}
+			switch CalleeOf(c).Recv {
+			case "bigEndian":
+				sites = append(sites, be16Site{CallPos(c), "BE"})
+				vals = append(vals, val)
+			case "littleEndian":
+				sites = append(sites, be16Site{CallPos(c), "LE"})
+				vals = append(vals, val)
+			}
+		}
 		Instrs(g, func(in ssa.Instruction) {
 			or, ok := in.(*ssa.BinOp)
 			if !ok || (or.Op != token.OR && or.Op != token.ADD) {
